@@ -29,6 +29,7 @@ def main():
     ap.add_argument("--repo", default=os.environ.get("MHL_REPO", "/repo"))
     ap.add_argument("--explain", default=None)
     ap.add_argument("--no-selftest", action="store_true")
+    ap.add_argument("--no-evidence", action="store_true")
     a = ap.parse_args()
     prop = a.prop.upper()
     try:
@@ -39,6 +40,7 @@ def main():
     try:
         program = Program(a.repo)
         report = Report(prop, a.tier, program)
+        report.write_evidence = (os.path.abspath(a.repo) == "/repo") and not a.no_evidence
         bad = program.dynamic_constructs()
         if bad:
             raise AnalysisError("dynamic constructs make the call graph unsound: " + "; ".join(bad[:5]))
